@@ -102,14 +102,9 @@ func localise(src, mode string, toks []lexer.Token, i int, rule string) string {
 			return "nonutf8:" + tokClass(t.Type())
 		}
 	}
-	if strings.HasPrefix(src, "#!") && i < len(toks) {
-		// Tokenize strips a leading shebang line: is the token consistent with the stripped text?
-		if nl := strings.IndexByte(src, '\n'); nl >= 0 {
-			t := toks[i]
-			rest := src[nl+1:]
-			if s, e := t.Start(), t.End(); s >= 0 && e <= len(rest) && s <= e && strings.Count(rest[:s], "\n") == t.Line() {
-				return "shebang"
-			}
+	if i < len(toks) {
+		if name := strippedPrefix(src, toks[i]); name != "" {
+			return "stripped-prefix:" + name
 		}
 	}
 	if strings.HasPrefix(src, "<!DOCTYPE") {
@@ -187,6 +182,50 @@ func localise(src, mode string, toks []lexer.Token, i int, rule string) string {
 		return "after:cr"
 	}
 	return at
+}
+
+// strippedPrefix: is the offending token what one gets when a lead-in of the source (byte
+// order mark, shebang line, blanks, everything up to the open tag) is cut off before lexing and
+// the offsets are not shifted back? Returns the name of that lead-in.
+func strippedPrefix(src string, t lexer.Token) string {
+	s, e, lit := t.Start(), t.End(), t.Literal()
+	if s < 0 || e < s || lit == "" {
+		return ""
+	}
+	if e <= len(src) && src[s:e] == lit && strings.Count(src[:s], "\n") == t.Line() {
+		return ""
+	}
+	type cand struct {
+		name string
+		k    int
+	}
+	var cs []cand
+	rest, off := src, 0
+	if strings.HasPrefix(rest, "\xef\xbb\xbf") {
+		cs = append(cs, cand{"bom", 3})
+		rest, off = rest[3:], 3
+	}
+	if strings.HasPrefix(rest, "#!") {
+		if nl := strings.IndexByte(rest, '\n'); nl >= 0 {
+			name := "shebang"
+			if off > 0 {
+				name = "bom+shebang"
+			}
+			cs = append(cs, cand{name, off + nl + 1})
+		}
+	}
+	if n := len(src) - len(strings.TrimLeft(src, " \t\r\n")); n > 0 {
+		cs = append(cs, cand{"blanks", n})
+	}
+	if p := strings.Index(src, "<?php"); p > 0 {
+		cs = append(cs, cand{"before-open-tag", p}, cand{"open-tag", p + 5})
+	}
+	for _, c := range cs {
+		if e+c.k <= len(src) && src[s+c.k:e+c.k] == lit && strings.Count(src[c.k:s+c.k], "\n") == t.Line() {
+			return c.name
+		}
+	}
+	return ""
 }
 
 type gapComment struct {
